@@ -117,6 +117,13 @@ class Stmt(object):
                 s += " %s JOIN %s" % (jk.upper(), jt)
                 if on is not None:
                     s += " ON " + on.render()
+            if self.extra.get("group_by"):
+                tail = " GROUP BY %s" % ",".join(self.extra["group_by"])
+                if self.extra.get("having"):
+                    tail += " HAVING %s" % self.extra["having"]
+                if self.where is not None:
+                    return (s + " WHERE " + self.where.render() + tail).strip()
+                return (s + tail).strip()
         elif k == "insert":
             s = "INSERT INTO %s (%s)" % (self.table, ",".join(self.cols))
         elif k == "update":
@@ -351,6 +358,11 @@ class _P(object):
             sub = self.select()
             self.expect_punct(")")
             return Where("notin" if neg else "in", col=col, sub=sub)
+        if not neg and (t.kind == "eof" or (t.kind == "kw" and t.text in (
+                "AND", "OR", "GROUP", "ORDER", "LIMIT", "HAVING")) or
+                (t.kind == "punct" and t.text == ")")):
+            # bare column used as a boolean
+            return Where("cmp", col=col, cmpop="!=", value=Atom("lit", 0))
         raise SqlUnparsed("unsupported predicate at %r in %r" % (t, self.text))
 
     primary = None
@@ -452,6 +464,31 @@ class _P(object):
         for (kind, jt, on) in joins:
             if kind == "inner" and on is not None:
                 where = on if where is None else Where("and", args=[where, on])
+        if self.eat_kw("GROUP"):
+            self.expect_kw("BY")
+            gcols = [self.qcol()]
+            while self.eat_punct(","):
+                gcols.append(self.qcol())
+            extra["group_by"] = gcols
+            if self.eat_kw("HAVING"):
+                # HAVING COUNT(*) <op> n  /  HAVING <col> <op> value
+                toks = []
+                depth = 0
+                while self.peek().kind != "eof":
+                    tk = self.peek()
+                    if tk.kind == "punct" and tk.text == "(":
+                        depth += 1
+                    elif tk.kind == "punct" and tk.text == ")":
+                        if depth == 0:
+                            break
+                        depth -= 1
+                    elif depth == 0 and tk.kind == "kw" and tk.text in ("ORDER", "LIMIT"):
+                        break
+                    elif tk.kind == "qm":
+                        self.nparams += 1
+                    toks.append(tk.text)
+                    self.i += 1
+                extra["having"] = " ".join(toks)
         order = []
         if self.eat_kw("ORDER"):
             self.expect_kw("BY")
